@@ -21,6 +21,24 @@ def grid_array(grid, layout):
     return g
 
 
+def stretch_time(sp, c):
+    """The same network in a time unit c times longer: every rate constant divided by c (the chain observed at times
+    c*t has the law of the original chain at times t)."""
+    import copy
+    out = copy.deepcopy(sp)
+    for rx in out["reactions"]:
+        if rx["type"] == "general":
+            rx["tree"] = ["mul", ["num", 1.0 / c], rx["tree"]]
+            rx["pd"]["rate"] = ref.show(rx["tree"])
+        else:
+            k = rx["pd"]["k"]
+            if isinstance(k, str):
+                out["params"][k] = float(out["params"][k]) / c
+            else:
+                rx["pd"]["k"] = float(k) / c
+    return out
+
+
 def simulate_paths_factory(sp, grid, how, layout="contiguous"):
     """Returns simulate(n, seed) -> (n, T, nspecies in spec order)."""
     from bioscrape.simulator import ModelCSimInterface, SafeModelCSimInterface, SSASimulator, py_simulate_model
@@ -59,7 +77,13 @@ def check(case):
         res.skip = "state space above cap"
         return res
     n1 = case["n1"] if how != "model_api" else max(case["n1"] // 20, 300)
-    simulate = simulate_paths_factory(sp, grid, how, case.get("layout", "contiguous"))
+    c = float(case.get("time_scale", 1.0))
+    if c != 1.0:
+        # reference: the unscaled network on the unscaled grid; simulated: rates / c on the grid c * t
+        simulate = simulate_paths_factory(stretch_time(sp, c), [t * c for t in grid], how, case.get("layout", "contiguous"))
+        res.label("time_unit_stretched_by:%g" % c)
+    else:
+        simulate = simulate_paths_factory(sp, grid, how, case.get("layout", "contiguous"))
     rej, report = distcheck.compare(cme, grid, simulate, n1, case["seed"], case["seed"] + 7919)
     types = sorted({rx["type"] for rx in sp["reactions"]})
     for name, p, info in rej:
@@ -112,6 +136,7 @@ def cases(draw, n1):
         sp = draw(gen.finite_networks(safe=(how == "safe")))
     return {"kind": "cme", "spec": sp, "grid": draw(grids()), "how": how, "n1": n1,
             "layout": draw(st.sampled_from(["contiguous", "contiguous", "strided", "column"])),
+            "time_scale": draw(st.sampled_from([1.0, 1.0, 1.0, 1.0, 1e6, 1e13, 1e-6])),
             "seed": draw(st.integers(1, 2 ** 40))}
 
 
